@@ -590,21 +590,25 @@ class CHECK(vlib.Check):
     prop_file = "Properties_C14.v"
     model = ("Flt/FltExtract.v", "flt_driver.ml", "flt", ("ocommon.ml",))
     harness = dict(name="flt", src="flt_h.cpp", san="asan", link_lib=True)
-    modelled = ("regex/QueryFilter.{h,cpp}: Matches() of every filter class (WhatCode, ValueExists, the nine NumericQueryFilter "
-                "instantiations incl. mask operations and assumed defaults, ChildCount, String with all 28 operators, NodeName, RawData, "
-                "Message, Minimum/MaximumThreshold with ThresholdMaxAux's early exits, Xor), Message::FindData's type switch, "
-                "SaveToArchive/SetFromArchive of every class and the MuscleQueryFilterFactory.  IEEE-754 float/double comparison is "
-                "modelled on the bit patterns.  Not modelled: NULL children of a MultiQueryFilter, empty (zero-length) ByteBuffers as "
-                "RawData value/default, Strings with embedded NUL, RawData filters aimed at sub-Message/pointer fields (pointer bits).")
+    modelled = ("regex/QueryFilter.{h,cpp}, LexerToken.h, ISubexpressionFactory.h: Matches() of every filter class (WhatCode, ValueExists, the nine "
+                "NumericQueryFilter instantiations incl. mask operations and assumed defaults, ChildCount and NodeName (with a DataNode), String "
+                "with all 28 operators, RawData, Message, Minimum/MaximumThreshold with ThresholdMaxAux's early exits, Xor), Message::FindData's "
+                "type switch, SaveToArchive/SetFromArchive of every class and the MuscleQueryFilterFactory, and CreateQueryFilterFromExpression "
+                "(GetMatchingToken, the Lexer, CreateQueryFilterFromExpressionAux, GetValueStringType, ParseFieldNameAux, GetValueAs<T>, "
+                "DefaultSubexpressionFactory).  IEEE-754 float/double comparison is modelled on the bit patterns and proved equal to Flocq's "
+                "Bcompare.  Not modelled: NULL children of a MultiQueryFilter, empty (zero-length) ByteBuffers as RawData value/default, Strings "
+                "with embedded NUL, RawData filters aimed at sub-Message/pointer fields (pointer bits), custom ISubexpressionFactory/QueryFilterFactory.")
     premises = ["memory safety of the C++ (observed under ASan/UBSan in the harness only); recursion depth of nested archives (F5)",
                 "StringMatcher-backed string operators (wildcard / regex match) are a Section variable [smatch] of the evaluator: every theorem holds for any such function; the correspondence run instantiates it with property C15's StringMatcher model over its ERE engine",
                 "libc atof (strtod) and the double->float conversion are Section variables of the expression-parser model (instantiated with OCaml's in the driver)",
                 "domain: Strings NUL-free; a held ByteBuffer is non-empty; MultiQueryFilter children non-NULL; operand members within their C++ types (wf_filter)"]
-    rule = ("a case builds 8 Messages and a filter tree (constructors/setters, or the archive factory on a hostile Message); the "
-            "filter is evaluated on all 8 Messages directly, archived, restored, evaluated again; every line (tree read from the "
-            "objects' members, decisions, archive content, restored tree and decisions) is compared with the extracted model; the "
-            "harness's own documented-semantics evaluator, byte-identity of the Messages and restored-decides-identically are the oracle. "
-            "Non-trivial = at least two filter nodes or a float/double/Point/Rect comparison, and at least one non-empty Message.")
+    rule = ("a case builds 8 Messages and a filter (constructors/setters; the archive factory on a hostile or deeply nested Message; or "
+            "CreateQueryFilterFromExpression, with the tree the documented grammar denotes built next to it); the filter is evaluated on all "
+            "8 Messages directly, archived, sent through Flatten/Unflatten, restored and evaluated again; every line (tree read from the objects' "
+            "private members, decisions, archive content, restored tree and decisions) is compared with the extracted model; the harness's own "
+            "documented-semantics evaluator (native C++ comparisons on the decoded values), byte-identity of the Messages after Matches(), "
+            "restored-decides-identically and expression-decides-as-denoted are the oracle.  Non-trivial = at least two filter nodes, or a "
+            "float/double/Point/Rect comparison, or an archive/expression construction, and at least one non-empty Message.")
 
     def build(self):
         """the generic build; the model's extraction is retried when another check recompiled Gen/Consts.vo between
